@@ -801,9 +801,34 @@ func (it *Interp) execBlock(fn *ssa.Function, sum *Summary, w work, panicCtx boo
 			x := it.eval(st, ins.X)
 			if so, ok := x.(SliceOf); ok {
 				setReg(st, ins, so) // address into the tracked slice
+			} else if p, ok := x.(Ptr); ok {
+				// element of a local array at a constant index
+				if c, ok := it.eval(st, ins.Index).(Const); ok && c.V.Kind() == constant.Int {
+					if o := st.Heap[p.Obj]; o != nil && o.TrackAll {
+						path := "[" + c.V.ExactString() + "]"
+						if p.Path != "" {
+							path = p.Path + "." + path
+						}
+						setReg(st, ins, Ptr{p.Obj, path})
+						continue
+					}
+				}
+				setReg(st, ins, Top{})
 			} else {
 				setReg(st, ins, Top{})
 			}
+		case *ssa.Lookup:
+			// constant string indexed by a constant
+			if cs, ok := it.eval(st, ins.X).(Const); ok && cs.V.Kind() == constant.String && !ins.CommaOk {
+				if ci, ok := it.eval(st, ins.Index).(Const); ok && ci.V.Kind() == constant.Int {
+					sv := constant.StringVal(cs.V)
+					if i, ok := constant.Int64Val(ci.V); ok && i >= 0 && int(i) < len(sv) {
+						setReg(st, ins, Const{V: constant.MakeInt64(int64(sv[i]))})
+						continue
+					}
+				}
+			}
+			setReg(st, ins, Top{})
 		case *ssa.Convert:
 			x := it.eval(st, ins.X)
 			it.escape(fn, st, ins, x, "convert")
@@ -851,7 +876,19 @@ func (it *Interp) execBlock(fn *ssa.Function, sum *Summary, w work, panicCtx boo
 				continue
 			}
 			setReg(st, ins, Top{})
-		case *ssa.Index, *ssa.Lookup, *ssa.MakeMap, *ssa.MakeChan, *ssa.Range, *ssa.Next, *ssa.SliceToArrayPointer, *ssa.MultiConvert:
+		case *ssa.Index:
+			// constant string indexed by a constant
+			if cs, ok := it.eval(st, ins.X).(Const); ok && cs.V.Kind() == constant.String {
+				if ci, ok := it.eval(st, ins.Index).(Const); ok && ci.V.Kind() == constant.Int {
+					sv := constant.StringVal(cs.V)
+					if i, ok := constant.Int64Val(ci.V); ok && i >= 0 && int(i) < len(sv) {
+						setReg(st, ins, Const{V: constant.MakeInt64(int64(sv[i]))})
+						continue
+					}
+				}
+			}
+			setReg(st, ins, Top{})
+		case *ssa.MakeMap, *ssa.MakeChan, *ssa.Range, *ssa.Next, *ssa.SliceToArrayPointer, *ssa.MultiConvert:
 			setReg(st, ins.(ssa.Value), Top{})
 		case *ssa.MapUpdate:
 		case *ssa.Defer:
@@ -1194,6 +1231,15 @@ func (it *Interp) binop(x, y AbsVal, op token.Token) AbsVal {
 			return boolConst(constant.Compare(cx.V, op, cy.V))
 		}
 	case token.LAND, token.LOR:
+	case token.ADD, token.SUB, token.MUL:
+		// integer constants fold (loop counters over constant tables)
+		cx, ok1 := x.(Const)
+		cy, ok2 := y.(Const)
+		// (only in the exhaustive NoMerge runs: elsewhere a folded counter,
+		// e.g. a recursion depth, would make every level a new context)
+		if it.Cfg.NoMerge && ok1 && ok2 && cx.V.Kind() == constant.Int && cy.V.Kind() == constant.Int {
+			return Const{V: constant.BinaryOp(cx.V, op, cy.V)}
+		}
 	}
 	return Top{}
 }
